@@ -227,42 +227,11 @@ func ruleC15Tail(p *Prog, r *Res) {
 	// later records win: every complete record is stored unconditionally
 	siFld := p.Field("converters", "cacheFile", "streamInfos")
 	if skipPt != nil {
-		directStore := func(inf *types.Info) func(n ast.Node) bool {
-			return func(n ast.Node) bool {
-				as, ok := n.(*ast.AssignStmt)
-				if !ok || len(as.Lhs) != 1 {
-					return false
-				}
-				ix, ok := ast.Unparen(as.Lhs[0]).(*ast.IndexExpr)
-				return ok && isFieldOf(inf, ix.X, siFld)
-			}
-		}
-		isStore := func(n ast.Node) bool {
-			if directStore(info)(n) {
-				return true
-			}
-			// a helper of the package that stores on every one of its paths
-			if g := helperWrites(n, siFld); g != nil && g.Lit == nil {
-				return !p.Flow(g).MustPass(directStore(g.Pkg.TypesInfo)).Found
-			}
-			return false
-		}
-		b := skipPt.B
-		if len(b.Succs) == 2 {
-			var hdrNode *cfg.Block
-			for _, lp := range fl.Loops() {
-				if lp.Stmt == ast.Stmt(loop) {
-					hdrNode = lp.Header
-				}
-			}
-			// from the success branch, reach the loop header again without storing?
-			found := false
-			seen := map[*cfg.Block]bool{}
-			var dfs func(bb *cfg.Block, from int)
-			// a record whose id equals a constant marker (a tombstone written by an invalidation) is not a stream's
-			// record: the edge on which `<record>.StreamID == <constant>` holds may skip the store
-			sidFld := p.Field("converters", "converterStreamSection", "StreamID")
-			tombEdge := func(bb *cfg.Block, si int) bool {
+		// a record whose id equals a constant marker (a tombstone written by an invalidation) is not a stream's
+		// record: the edge on which `<record>.StreamID == <constant>` holds may skip the store
+		sidFld := p.Field("converters", "converterStreamSection", "StreamID")
+		tombEdgeIn := func(inf *types.Info) func(bb *cfg.Block, si int) bool {
+			return func(bb *cfg.Block, si int) bool {
 				if len(bb.Succs) != 2 || len(bb.Nodes) == 0 || sidFld == nil {
 					return false
 				}
@@ -280,16 +249,62 @@ func ruleC15Tail(p *Prog, r *Res) {
 						continue
 					}
 					x, y := be.X, be.Y
-					if tv, isC := info.Types[x]; isC && tv.Value != nil {
+					if tv, isC := inf.Types[x]; isC && tv.Value != nil {
 						x, y = y, x
 					}
-					tv, isC := info.Types[y]
-					if se, isSel := ast.Unparen(x).(*ast.SelectorExpr); isSel && isC && tv.Value != nil && info.Uses[se.Sel] == types.Object(sidFld) {
+					tv, isC := inf.Types[y]
+					if !isC || tv.Value == nil {
+						continue
+					}
+					// the record id itself, or a value passed in from it (helper parameter of the same type)
+					if se, isSel := ast.Unparen(x).(*ast.SelectorExpr); isSel && inf.Uses[se.Sel] == types.Object(sidFld) {
 						return true
+					}
+					if o := identObj(inf, x); o != nil {
+						if b, isB := o.Type().Underlying().(*types.Basic); isB && b.Kind() == types.Uint64 {
+							return true
+						}
 					}
 				}
 				return false
 			}
+		}
+		tombEdge := tombEdgeIn(info)
+		directStore := func(inf *types.Info) func(n ast.Node) bool {
+			return func(n ast.Node) bool {
+				as, ok := n.(*ast.AssignStmt)
+				if !ok || len(as.Lhs) != 1 {
+					return false
+				}
+				ix, ok := ast.Unparen(as.Lhs[0]).(*ast.IndexExpr)
+				return ok && isFieldOf(inf, ix.X, siFld)
+			}
+		}
+		isStore := func(n ast.Node) bool {
+			if directStore(info)(n) {
+				return true
+			}
+			// a helper of the package that stores on every one of its paths
+			if g := helperWrites(n, siFld); g != nil && g.Lit == nil {
+				gfl := p.Flow(g)
+				te := tombEdgeIn(g.Pkg.TypesInfo)
+				gfl.EdgeOK = func(bb *cfg.Block, si int) bool { return !te(bb, si) }
+				return !gfl.MustPass(directStore(g.Pkg.TypesInfo)).Found
+			}
+			return false
+		}
+		b := skipPt.B
+		if len(b.Succs) == 2 {
+			var hdrNode *cfg.Block
+			for _, lp := range fl.Loops() {
+				if lp.Stmt == ast.Stmt(loop) {
+					hdrNode = lp.Header
+				}
+			}
+			// from the success branch, reach the loop header again without storing?
+			found := false
+			seen := map[*cfg.Block]bool{}
+			var dfs func(bb *cfg.Block, from int)
 			dfs = func(bb *cfg.Block, from int) {
 				if found {
 					return
@@ -755,20 +770,38 @@ func ruleC15IndexFile(p *Prog, r *Res) {
 			recognised := false
 			if ctor := p.Fn("converters.NewCacheFile"); ctor != nil && sidFld != nil {
 				cinfo := ctor.Pkg.TypesInfo
-				ast.Inspect(ctor.Body(), func(x ast.Node) bool {
-					if be, ok := x.(*ast.BinaryExpr); ok && (be.Op == token.EQL || be.Op == token.NEQ) {
-						xx, yy := be.X, be.Y
-						if tv, isC := cinfo.Types[xx]; isC && tv.Value != nil {
-							xx, yy = yy, xx
-						}
-						if se, isSel := ast.Unparen(xx).(*ast.SelectorExpr); isSel && cinfo.Uses[se.Sel] == types.Object(sidFld) {
-							if tv, isC := cinfo.Types[yy]; isC && tv.Value != nil && constant.Compare(constant.ToInt(tv.Value), token.EQL, constant.ToInt(marker)) {
-								recognised = true
-							}
+				bodies := []ast.Node{ctor.Body()}
+				for _, hc := range callsIn(ctor.Body()) {
+					if fn := p.Callee(ctor.Pkg, hc); fn != nil {
+						if h := p.FnOfObj(fn); h != nil && h.Pkg == ctor.Pkg && h != ctor && h.Body() != nil {
+							bodies = append(bodies, h.Body())
 						}
 					}
-					return true
-				})
+				}
+				for _, bd := range bodies {
+					ast.Inspect(bd, func(x ast.Node) bool {
+						if be, ok := x.(*ast.BinaryExpr); ok && (be.Op == token.EQL || be.Op == token.NEQ) {
+							xx, yy := be.X, be.Y
+							if tv, isC := cinfo.Types[xx]; isC && tv.Value != nil {
+								xx, yy = yy, xx
+							}
+							if se, isSel := ast.Unparen(xx).(*ast.SelectorExpr); isSel && cinfo.Uses[se.Sel] == types.Object(sidFld) {
+								if tv, isC := cinfo.Types[yy]; isC && tv.Value != nil && constant.Compare(constant.ToInt(tv.Value), token.EQL, constant.ToInt(marker)) {
+									recognised = true
+								}
+							}
+							// in a helper the id may arrive as a uint64 parameter
+							if o := identObj(cinfo, xx); o != nil {
+								if b, isB := o.Type().Underlying().(*types.Basic); isB && b.Kind() == types.Uint64 {
+									if tv, isC := cinfo.Types[yy]; isC && tv.Value != nil && constant.Compare(constant.ToInt(tv.Value), token.EQL, constant.ToInt(marker)) {
+										recognised = true
+									}
+								}
+							}
+						}
+						return true
+					})
+				}
 			}
 			r.Check(recognised, rule, f.Key()+" tombstone marker is recognised by the load scan", p.Pos(f.Node()), "NewCacheFile compares the record id with the same constant "+marker.ExactString(), "the marker "+marker.ExactString()+" written over invalidated records is not tested for in NewCacheFile's scan: such records are indexed under that id and their space is not reclaimed")
 		}
